@@ -334,6 +334,8 @@ class Lockstep:
         q.guards = [(self.rw(a), o) for a, o in p.guards]
         q.effects = [tuple(self.rw(x) if isinstance(x, tuple) else x for x in ef) if ef[0] != "call" else (ef[0], ef[1], tuple(self.rw(x) for x in ef[2])) + tuple(ef[3:]) for ef in p.effects]
         q.ret = self.rw(p.ret) if p.ret is not None else None
+        # what the locals hold at the end of the turn, in the same form
+        q.env = {l: (self.rw(v) if isinstance(v, tuple) else v) for l, v in getattr(p, "env", {}).items()}
         return q
 
     def paths(self, ctx, **kw):
